@@ -99,7 +99,8 @@ protected:
    /// @since  1.37.0, 18.06.2020
    void forward()
    {
-      if (static_cast< size_t>( mCurrPos) >= mpDynBitset->size())
+      if ((mCurrPos >= 0)
+          && (static_cast< size_t>( mCurrPos) >= mpDynBitset->size()))
          return;
       while ((static_cast< size_t>( ++mCurrPos) < mpDynBitset->size())
              && !mpDynBitset->test( mCurrPos))
